@@ -664,6 +664,8 @@ class Ref:
     t_slim_optimize = t_optimize
     t_repair = t_optimize
     t_solver = t_optimize
+    t_det_mutate = t_optimize  # a detached object is edited: no model may change
+    t_prune = t_optimize  # returns a new model; the input is left alone
 
     def t_tolerance(self, op, env):
         return "ok"
